@@ -381,6 +381,29 @@ def _task_unrecognized(task):
                                 note="the index counts the packets the command lists (the recognised ones)")
                 elif i >= len(rec) and (shown or not out.strip()):
                     t.violation({"kind": "parse-out-of-range-not-reported", "unrecognized": True}, c2, observed=out[-300:])
+    # a definition whose packets decode to NO items (a root container without entries): every valid index shows that (empty) packet, every
+    # other index the out-of-range message
+    from mc.spec import Container, Doc, render_xml
+    empty = Doc((), (), (Container("CCSDSPacket", ()),))
+    with open(xtce, "wb") as f:
+        f.write(render_xml(empty))
+    for n in task["ns"]:
+        pk = [framing.mk_packet(bytes([0xC0 + i]), apid=100 + i, seqcount=i) for i in range(n)]
+        with open(path, "wb") as f:
+            f.write(b"".join(pk))
+        for i in range(n + 2):
+            code, exc, out = invoke(["parse", path, xtce, "--packet", str(i)])
+            t.evals += 1
+            t.nontrivial += 1
+            c2 = {"empty_definition": True, "n": n, "cmd": "parse", "index": i}
+            says_range = "out of range" in out
+            if code != 0 or exc:
+                t.violation({"kind": "cli-crash", "cmd": "parse", "exit": str(code), "exc": exc, "empty_definition": True}, c2, observed=out[-300:])
+            elif i < n and (says_range or "{}" not in out):
+                t.violation({"kind": "parse-shows-wrong-packet", "empty_definition": True}, c2, expected="{}", observed=out[-200:],
+                            note="a valid index of a file whose packets decode to no items shows the empty packet")
+            elif i >= n and not says_range:
+                t.violation({"kind": "parse-out-of-range-not-reported", "empty_definition": True}, c2, observed=out[-300:])
     for pth in (path, xtce):
         try:
             os.unlink(pth)
